@@ -42,6 +42,17 @@ def cases(tier, rng):
         strs.append(("f(" + "a" * (L - 3) + ")", "long")); strs.append(("f(" + "\u00e9" * ((L - 3) // 2) + ")", "long"))
         strs.append(("f(" + "\u00e9" * (L - 3) + ")", "long")); strs.append(("p :- f(" + "a" * (L - 3) + ")", "long"))
         strs.append(("[" + "a, " * ((L - 3) // 3) + "a]", "long"))
+    # too long AND non-ASCII at every byte alignment (the error path of the length check), also as a rule and a goal
+    for pre in ("f(", "fo(", "foo(", "a_functor_of_exactly_sixty_three_characters_aaaaaaaaaaaaaaaaaaaaaaaa"[:63] + "\u00e9("):
+        for ch in ("\u00e9", "\u65e5", "\U0001F600"):
+            for L in (1001, 1100):
+                strs.append((pre + ch * L + ")", "long")); strs.append(("p :- " + pre + ch * L + ")", "long"))
+    # built-in functions nested deep with a syntax error at the innermost level (each level must be parsed once, not twice)
+    for d in (5, 12, 20, 30, 45):
+        for fnm in ("add", "join", "divide"):
+            strs.append(((fnm + "(") * d + "1," + ")" * d, "deep")); strs.append(((fnm + "(") * d + ")" * d, "deep"))
+            strs.append(((fnm + "(") * d + "1, 2" + ")" * d, "deep"))
+    for s0 in pc.EXPONENT_LIKE: strs.append((s0, "float-edge"))
     seen = set()
     for s, tag in strs:
         if s in seen: continue
